@@ -467,10 +467,39 @@ def cornerstone_list(tier):
             continue
         n = len(f.pool)
         pairs = [(p, q) for p in range(n) for q in range(n)]
-        cap = 12 if f.cost != "cheap" else 40
+        cap = 16 if f.cost != "cheap" else 40
         if len(pairs) > cap:
-            step = len(pairs) / float(cap)
-            pairs = [pairs[int(i * step)] for i in range(cap)]
+            # the informative pairs first: parameter sets that differ in exactly one parameter (a cache keyed on too few
+            # parameters is visible only there), then the diagonal (same parameters, two objects), then a strided rest
+            def ndiff(pq):
+                a, b = f.pool[pq[0]].kwargs, f.pool[pq[1]].kwargs
+                return sum(1 for k in set(a) | set(b) if repr(a.get(k, "<default>")) != repr(b.get(k, "<default>")))
+            one = [pq for pq in pairs if ndiff(pq) == 1]
+            diag = [pq for pq in pairs if pq[0] == pq[1]]
+            rest = [pq for pq in pairs if pq not in one and pq not in diag]
+            # interleave directions so that both (p,q) and (q,p) of the first one-difference pairs get in
+            chosen = []
+            for pq in one:
+                if len(chosen) >= (cap * 3) // 4:
+                    break
+                for d in (pq, (pq[1], pq[0])):
+                    if d not in chosen:
+                        chosen.append(d)
+            for pq in diag:
+                if len(chosen) >= (cap * 7) // 8:
+                    break
+                if pq not in chosen:
+                    chosen.append(pq)
+            k = 0
+            while len(chosen) < cap and rest:
+                step = max(1, len(rest) // max(1, cap - len(chosen)))
+                pq = rest[(k * step) % len(rest)]
+                if pq not in chosen:
+                    chosen.append(pq)
+                k += 1
+                if k > 4 * cap:
+                    break
+            pairs = chosen
         for (p, q) in pairs:
             for v in VARIANTS:
                 if f.cost != "cheap" and v in ("b_fails",):
